@@ -186,14 +186,15 @@ for key, full, repl, qn, tn in R2:
 DIV_REPL = ["bn_is_zero", "bn_cmp", "bn_assign_digit", "bn_assign_zero", "bn_assign", "bn_digit_clz", "bn_assign_init",
             "bn_init_digits__int", "bn_l_shift", "bn_r_shift", "bn_digit_div__int_short", "bn_digits_sub_digit_mult__int",
             "bn_digits_cmp", "bn_digits_sub__int", "bn_update_digits__int"]
-for nd, tier in ():  # bn_div: contract, harness and job definition kept; the modular proof did not finish (see not_covered)
-    W = 8
-    job("r2.bn_div.w%d.n%d" % (W, nd), "bn2.c",
-        cfg(W, True, bitlen=W * nd, extra=["VF_FN_div", "VF_BN_ASSUME_DISTRIB"] + vb(W * nd)),
-        enforce=["bn_div"], replace=DIV_REPL, functions=["bn_div"], route="bounded", backend="kissat",
-        bound="W = 8, capacity %d digits, all four remainder forms (separate object, NULL, remainder == bn, bn == d); loops unwound 7 times with unwinding assertion; callees replaced by their contracts" % nd,
-        assumptions=[DISTRIB_ASSUME], tier=tier, timeout=1200,
-        cbmc=["--unwind", "7", "--unwindset", "vf_d_clz.0:10,vf_d_ctz.0:10,vf_d_popcount.0:10,__CPROVER_contracts_write_set_check_assigns_clause_inclusion.0:40,__CPROVER_contracts_write_set_check_frees_clause_inclusion.0:40", "--unwinding-assertions", "--object-bits", "10"])
+DIV_CBMC = ["--unwind", "7", "--unwindset", "vf_d_clz.0:10,vf_d_ctz.0:10,vf_d_popcount.0:10,__CPROVER_contracts_write_set_check_assigns_clause_inclusion.0:40,__CPROVER_contracts_write_set_check_frees_clause_inclusion.0:40", "--unwinding-assertions", "--object-bits", "10"]
+DIV_FORMS = {0: "separate remainder", 1: "remainder NULL", 2: "remainder == bn", 3: "bn == d"}
+for cap, tier, tmo in ((1, "quick", 900), (2, "thorough", 7200)):
+    for form, ftxt in DIV_FORMS.items():
+        job("r2.bn_div.w8.cap%d.form%d" % (cap, form), "bn2.c",
+            cfg(8, True, bitlen=16, extra=["VF_FN_div", "VF_DIV_FORM=%d" % form, "VF_DIV_MAXCOUNT=%d" % cap, "VF_BN_ASSUME_DISTRIB"] + vb(16)),
+            enforce=["bn_div"], replace=DIV_REPL, functions=["bn_div"], route="bounded", backend="kissat",
+            bound="W = 8, build with BN_MAX_DIGITS = 2, dividend capacity and divisor <= %d digit(s), %s; loops unwound 7 times with unwinding assertions (quotient-correction loop included); callees replaced by their contracts" % (cap, ftxt),
+            assumptions=[DISTRIB_ASSUME], tier=tier, timeout=tmo, timeout_thorough=tmo, cbmc=DIV_CBMC)
 
 # ------------------------------------------------------------------ rung 2: recodings (plain, monolithic, bounded scalars)
 for key, full in (("naf", "bn_calc_naf"), ("jsf", "bn_calc_jsf"), ("combo", "bn_combo_column_get")):
@@ -255,6 +256,49 @@ for key, full, repl, us, route, bound in R3L:
         enforce=[full], replace=repl, functions=[full], route=route, bound=bound, backend="kissat",
         tier="thorough", timeout=900,
         cbmc=["--unwind", "6", "--unwindset", CL + ("," + us if us else ""), "--unwinding-assertions", "--object-bits", "10"])
+
+# ------------------------------------------------------------------ rung 3, loop functions by full unwinding (modular, W = 8, small values):
+# termination for the stated value range is the unwinding assertion ("unwind_violation": the bound is the loop's
+# bit-length bound, exceeding it is a termination violation), value clauses included
+CLU = "vf_d_clz.0:10,vf_d_ctz.0:10,vf_d_popcount.0:10,__CPROVER_contracts_write_set_check_assigns_clause_inclusion.0:40,__CPROVER_contracts_write_set_check_frees_clause_inclusion.0:40"
+def lset(fn, n, ids=range(16)):
+    # --dfcc renames the body of an enforced function to <fn>_wrapped_for_contract_checking
+    return ",".join("%s.%d:%d,%s_wrapped_for_contract_checking.%d:%d" % (fn, k, n, fn, k, n) for k in ids)
+R3U = [
+ # key, fn, replaced, BN_BIT_LEN, value digits, unwindset, bound text, extra defines
+ ("sqrt1", "bn_sqrt1", ["bn_init", "bn_assign_2exp", "bn_clz", "bn_cmp", "bn_r_shift", "bn_is_zero", "bn_assign", "bn_add", "bn_sub"],
+  16, None, lset("bn_sqrt1", 11), "W = 8, BN_MAX_DIGITS = 2: every number of every capacity <= 16 bit", []),
+ ("gcd", "bn_gcd", ["bn_is_zero", "bn_assign", "bn_cmp", "bn_assign_init", "bn_div"],
+  16, 1, lset("bn_gcd", 15), "W = 8, BN_MAX_DIGITS = 2, operands < 2^8 (Euclid needs <= 13 rounds)", []),
+ ("gcd_bin", "bn_gcd_bin", ["bn_is_zero", "bn_assign", "bn_cmp", "bn_assign_init", "bn_ctz", "bn_r_shift", "bn_sub", "bn_l_shift"],
+  16, 1, lset("bn_gcd_bin", 19), "W = 8, BN_MAX_DIGITS = 2, operands < 2^8 (binary gcd needs <= 16 rounds)", []),
+ ("mod_inv_bin", "bn_mod_inv_bin", ["bn_is_zero", "bn_cmp", "bn_is_odd", "bn_init", "bn_assign", "bn_assign_digit", "bn_is_one", "bn_is_even", "bn_r_shift", "bn_add", "bn_mod_sub"],
+  48, 1, lset("bn_mod_inv_bin", 20), "W = 8, BN_MAX_DIGITS = 6, modulus and operand < 2^8 (<= 18 outer rounds, <= 8 halvings each)", []),
+]
+for key, full, repl, bitlen, vd, us, bound, extra in R3U:
+    ex = ["VF_FN_" + key] + vb(bitlen) + list(extra)
+    if vd:
+        ex.append("VF_MAXVAL_DIGITS=%d" % vd)
+    job("r3.%s.w8.b%d" % (full, bitlen), "bn3.c", cfg(8, True, bitlen=bitlen, extra=ex),
+        enforce=[full], replace=repl, functions=[full], route="bounded", bound=bound + "; loops fully unwound, callees replaced by their contracts",
+        backend="kissat", tier="thorough", timeout=3600, timeout_thorough=3600, unwind_violation=True,
+        cbmc=["--unwind", "7", "--unwindset", CLU + "," + us, "--unwinding-assertions", "--object-bits", "13"])
+
+# ------------------------------------------------------------------ rung 3, loop functions with loop contracts (iterations unbounded; W = 8, BN_MAX_DIGITS = 2)
+R3LC = [
+ ("mod_exp_digit", "bn_mod_exp_digit", ["bn_assign_digit", "bn_mod_mult", "bn_assign_init"]),
+ ("mod_exp", "bn_mod_exp", ["bn_assign_digit", "bn_mod_mult", "bn_assign_init", "bn_calc_bits", "bn_is_bit_set"]),
+ ("exp_digit", "bn_exp_digit", ["bn_assign_digit", "bn_mult", "bn_assign_init", "bn_assign_2exp"]),
+]
+for key, full, repl in R3LC:
+    W, nd = 8, 2
+    job("r3.%s.loops.w%d.n%d" % (full, W, nd), "bn3.c",
+        cfg(W, True, bitlen=W * nd, extra=["VF_FN_" + key] + vb(W * nd)),
+        enforce=[full], replace=repl, functions=[full], route="bounded", backend="kissat",
+        bound="W = 8, build with BN_MAX_DIGITS = 2 (every capacity, value, exponent); the exponent loop is closed by a loop contract (invariant: operands well-formed; decreases: remaining exponent bits), so the number of iterations is unbounded; callees replaced by their contracts",
+        loops=loops_file(key, [full]), foreach=[{"SZ": 1, "MAXD": nd}],
+        tier="thorough", timeout=1800, timeout_thorough=1800,
+        cbmc=["--object-bits", "10"])
 
 # ------------------------------------------------------------------ tier overrides from measured times (quick: <= ~90 s each on an idle 16-core box)
 import re
